@@ -3,6 +3,7 @@
 package vnode
 
 import (
+	"bytes"
 	"encoding/json"
 	"fmt"
 	"math/big"
@@ -55,6 +56,40 @@ func BPN(i int) *BPKey {
 }
 
 func (k *BPKey) Enc() string { return types.IDB58Encode(k.ID) }
+
+var twinCache = map[int]*BPKey{}
+
+// BPTwin is the producer identity whose private key is the negation of BPN(i)'s: the two public keys have the same
+// X coordinate and differ only in the parity byte of their compressed form, so the two 39-byte peer ids differ in
+// exactly one byte (index 6).
+func BPTwin(i int) *BPKey {
+	base := BPN(i)
+	keyMu.Lock()
+	defer keyMu.Unlock()
+	if k, ok := twinCache[i]; ok {
+		return k
+	}
+	raw, err := base.Priv.Raw()
+	if err != nil {
+		panic(err)
+	}
+	p, _ := btcec.PrivKeyFromBytes(raw)
+	var neg btcec.ModNScalar
+	neg.Set(&p.Key)
+	neg.Negate()
+	nb := neg.Bytes()
+	priv, err := crypto.UnmarshalSecp256k1PrivateKey(nb[:])
+	if err != nil {
+		panic(err)
+	}
+	id, err := peer.IDFromPrivateKey(priv)
+	if err != nil {
+		panic(err)
+	}
+	k := &BPKey{Priv: priv, ID: id}
+	twinCache[i] = k
+	return k
+}
 
 // ---- world specification ----------------------------------------------------------------------
 
@@ -221,7 +256,7 @@ func (w *World) DrawTx(t *rapid.T, from int, nonce uint64, bal *big.Int) *TxSpec
 }
 
 func (w *World) DrawKind(t *rapid.T) string {
-	kinds := []string{"transfer", "transfer", "transfer-new", "normal", "name-create", "name-update", "name-setowner", "deploy", "call", "call-fail", "call-sysfail", "feedeleg", "transfer-to-contract", "transfer-to-system"}
+	kinds := []string{"transfer", "transfer", "transfer-new", "normal", "name-create", "name-update", "name-setowner", "deploy", "call", "call-fail", "call-sysfail", "feedeleg", "transfer-to-contract", "transfer-to-system", "transfer-odd-recipient"}
 	if w.DPoS {
 		kinds = append(kinds, "stake", "stake", "unstake", "votebp", "votebp", "votedao")
 	}
@@ -255,6 +290,17 @@ func (w *World) DrawTxKind(t *rapid.T, kind string, from int, nonce uint64, bal 
 		s.Type = types.TxType_TRANSFER
 		w.FreshSeq++
 		s.Recipient = KeyN(1000 + rapid.IntRange(0, 3).Draw(t, "fresh")).Addr
+		s.Amount = small()
+	case "transfer-odd-recipient":
+		// any 33 bytes are a valid recipient; some look like the padded form in which short account ids (names,
+		// special accounts) are written into receipts
+		s.Type = types.TxType_TRANSFER
+		r := bytes.Repeat([]byte{byte(rapid.IntRange(1, 255).Draw(t, "fill"))}, types.AddressLength)
+		r[0] = byte(rapid.SampledFrom([]int{0x80, 0x80, 0x02, 0x00, 0xff}).Draw(t, "first"))
+		if rapid.Bool().Draw(t, "withZero") {
+			r[rapid.IntRange(1, types.AddressLength-1).Draw(t, "zeroAt")] = 0
+		}
+		s.Recipient = r
 		s.Amount = small()
 	case "transfer-to-system":
 		s.Type = types.TxType_TRANSFER
@@ -306,6 +352,10 @@ func (w *World) DrawTxKind(t *rapid.T, kind string, from int, nonce uint64, bal 
 			}
 			seen[c] = true
 			args = append(args, BPN(c).Enc())
+			if w.TieBias && rapid.Bool().Draw(t, "withTwin") {
+				// two candidates that only differ in the parity byte of the key, voted for with the same power
+				args = append(args, BPTwin(c).Enc())
+			}
 		}
 		s.Payload = callInfo("v1voteBP", args...)
 	case "votedao":
